@@ -5,7 +5,7 @@ dagrt/codegen/fortran.py (CodeGenerator) and dagrt/codegen/analysis.py.  Every f
 carries one of these decisions is matched against its exact expected text (ast.unparse of its
 body, docstring aside; harness/tr/c12_shapes.json is the committed snapshot of the expected
 texts); anything else is a ShapeError (fail-closed: the check then reports the broken tie and
-searches for a failing input with the ASan oracle).  Three places have two recognised shapes:
+searches for a failing input with the ASan oracle).  Four places have two recognised shapes:
 
   exit_deinit_all = false <-> lower_function, after label 999:
                                 for identifier, sym_kind in sorted(sym_table.items()):
@@ -17,6 +17,12 @@ searches for a failing input with the ASan oracle).  Three places have two recog
                      true  <-> it starts with `if self.for_loop_depth: return`, emit_for_begin /
                                emit_for_end count the depth, __init__ sets it to 0
                                                                   (fixes/C12_loop_last_use.patch)
+
+  stmt_cond_wrapped = false <-> lower_inst: "! {{{", super().lower_inst(inst), "! }}}" (statement.condition ignored)
+                      true  <-> the call is bracketed by `if inst.condition is not True:
+                                self.emit_if_begin(inst.condition)` / `...: self.emit_if_end()`
+                                                                  (repair of C03, commit 9d87c11)
+                      The theorems hold for both shapes; the switch keeps the correspondence exact.
 
   deinit_order_sorted (harness only; the model takes the order as part of its input):
                      false <-> `for variable in read_and_written:`          (set iteration order)
@@ -35,7 +41,7 @@ SNAPSHOT = os.path.join(os.path.dirname(os.path.abspath(__file__)), "c12_shapes.
 CG_WHOLE = ["emit_user_type_move", "emit_assign_expr", "emit_inst_Assign", "emit_return",
             "emit_inst_FailStep", "emit_inst_SwitchPhase", "emit_inst_YieldState", "emit_variable_init",
             "emit_variable_deinit", "emit_allocation_check", "emit_allocate_refcount",
-            "emit_refcounted_allocation", "emit_shutdown", "lower_inst"]
+            "emit_refcounted_allocation", "emit_shutdown", "lower_inst", "emit_if_begin", "emit_if_end"]
 
 LOOP_GUARD = "if self.for_loop_depth:\n    return"
 EXIT_LOOP_OLD = ("for identifier, sym_kind in sorted(sym_table.items()):\n"
@@ -103,17 +109,23 @@ def extract(repo):
     return out
 
 
-def flags(repo):
-    """(exit_deinit_all, loop_skip_deinit, deinit_order_sorted); raises ShapeError."""
+def partial_flags(repo):
+    """(switches, errors): switches = dict(exit_deinit_all, loop_skip_deinit, deinit_order_sorted,
+    stmt_cond_wrapped) with None for a switch whose source shape is not recognised; errors = texts of the
+    shapes that were not recognised (empty <=> the tie holds).  Used by the check to keep comparing
+    behaviour when the tie is broken (only the unknown switches are then tried both ways)."""
     want = json.load(open(SNAPSHOT))
     got = extract(repo)
     if set(got) != set(want):
         raise ShapeError("c12: key sets differ")
+    errors = []
 
     def expect(key, w=None):
         if got[key] != (want[key] if w is None else w):
-            raise ShapeError("%s: unrecognised shape\n got: %r\nwant: %r"
-                             % (key, got[key], want[key] if w is None else w))
+            errors.append("%s: unrecognised shape\n got: %r\nwant: %r"
+                          % (key, got[key], want[key] if w is None else w))
+            return False
+        return True
 
     variant = {"CodeGenerator.emit_deinit_for_last_usage_of_vars", "CodeGenerator.emit_for_begin",
                "CodeGenerator.emit_for_end", "CodeGenerator.lower_function[label 999]",
@@ -122,15 +134,22 @@ def flags(repo):
         if key not in variant:
             expect(key)
     # lower_inst: since the repair of C03 (9d87c11) a statement that carries its own condition (made by
-    # expand_IfThenElse) is wrapped in `if (condition)`; the programs of this check contain no conditional
-    # expressions, so the wrapper is never emitted for them (the trace comparison would show it)
+    # expand_IfThenElse from `a if c else b`) is wrapped in `if (condition)`: the memory operations of the
+    # statement and its last-use releases (both emitted by emit_inst_<T>, reached through
+    # super().lower_inst) sit inside that `if`, the markers outside.  Model switch sw_stmt_cond.
     k = "CodeGenerator.lower_inst"
     cond_wrapped = [want[k][0], want[k][1], "if inst.condition is not True:\n    self.emit_if_begin(inst.condition)",
                     want[k][2], "if inst.condition is not True:\n    self.emit_if_end()"] + want[k][3:]
-    if got[k] != want[k] and got[k] != cond_wrapped:
+    stmt_cond = None
+    if got[k] == cond_wrapped and cond_wrapped != want[k]:
+        stmt_cond = True
+    elif got[k] == want[k]:
+        stmt_cond = False
+    else:
         expect(k)
     # exit label
     k = "CodeGenerator.lower_function[label 999]"
+    exit_all = None
     if got[k] == want[k]:
         exit_all = False
     elif got[k] == [EXIT_LOOP_NEW if s == EXIT_LOOP_OLD else s for s in want[k]]:
@@ -148,32 +167,47 @@ def flags(repo):
     plain = list(want[k])
     srt = [s.replace("for variable in read_and_written:", "for variable in sorted(read_and_written):")
            for s in plain]
+    order_sorted = None
     if body == plain:
         order_sorted = False
     elif body == srt and srt != plain:
         order_sorted = True
     else:
         expect(k)
+        loop_skip = None
+        # best effort for the comparison of behaviour only (the tie is reported as broken)
+        order_sorted = any("for variable in sorted(read_and_written):" in s for s in body)
     fb, fe, ini = ("CodeGenerator.emit_for_begin", "CodeGenerator.emit_for_end",
                    "CodeGenerator.__init__[for_loop_depth]")
     if loop_skip:
-        expect(fb, want[fb] + ["self.for_loop_depth += 1"])
-        expect(fe, ["self.for_loop_depth -= 1"] + want[fe])
-        expect(ini, ["self.for_loop_depth = 0"])
+        ok = [expect(fb, want[fb] + ["self.for_loop_depth += 1"]),
+              expect(fe, ["self.for_loop_depth -= 1"] + want[fe]),
+              expect(ini, ["self.for_loop_depth = 0"])]
     else:
-        expect(fb)
-        expect(fe)
-        expect(ini)
-    return exit_all, loop_skip, order_sorted
+        ok = [expect(fb), expect(fe), expect(ini)]
+    if not all(ok):
+        loop_skip = None
+    return ({"exit_deinit_all": exit_all, "loop_skip_deinit": loop_skip, "deinit_order_sorted": order_sorted,
+             "stmt_cond_wrapped": stmt_cond}, errors)
+
+
+def flags(repo):
+    """(exit_deinit_all, loop_skip_deinit, deinit_order_sorted, stmt_cond_wrapped); raises ShapeError."""
+    sw, errors = partial_flags(repo)
+    if errors:
+        raise ShapeError("\n".join(errors))
+    return (sw["exit_deinit_all"], sw["loop_skip_deinit"], sw["deinit_order_sorted"], sw["stmt_cond_wrapped"])
 
 
 def generate(repo):
-    exit_all, loop_skip, order_sorted = flags(repo)
+    exit_all, loop_skip, order_sorted, stmt_cond = flags(repo)
     out = [HEADER % "c12"]
     out.append("(* dagrt/codegen/fortran.py CodeGenerator.lower_function, loop after label 999 *)")
     out.append("Definition exit_deinit_all : bool := %s." % coq_bool(exit_all))
     out.append("(* CodeGenerator.emit_deinit_for_last_usage_of_vars / emit_for_begin / emit_for_end *)")
     out.append("Definition loop_skip_deinit : bool := %s." % coq_bool(loop_skip))
+    out.append("(* CodeGenerator.lower_inst: a statement with a condition of its own is wrapped in `if (condition)` *)")
+    out.append("Definition stmt_cond_wrapped : bool := %s." % coq_bool(stmt_cond))
     out.append("(* iteration order of the last-use deinits (used by the harness only) *)")
     out.append("Definition deinit_order_sorted : bool := %s." % coq_bool(order_sorted))
     return "\n".join(out) + "\n"
